@@ -407,7 +407,10 @@ def hist_c07(seed, cls=None):
 
 def hist_c08(seed, cls=None):
     rng = random.Random(seed)
-    spec = random_object_spec(rng, cls, n=rng.choice([2, 3, 5, 8, 10, 20, 40]), degenerate=True)
+    if cls is None and rng.random() < 0.1:
+        spec = missing_like_zero_spec(rng)
+    else:
+        spec = random_object_spec(rng, cls, n=rng.choice([2, 3, 5, 8, 10, 20, 40]), degenerate=True)
     o, X, y, kw = E.build(spec)
     h = _new('c08', seed, spec)
     if h.fit(1, o, X, y, kw):
@@ -498,10 +501,34 @@ def _random_edits(rng, h, idx, X, n_edits=2):
     return done
 
 
+def multiclass_ordinal_spec(rng):
+    """A MulticlassCarver sample whose ordinal feature keeps most levels alone in their group in
+    every class casting (the castings of one raw column start from copies of the same ranking)."""
+    levels = ['L%d' % i for i in range(rng.choice([3, 4, 5]))]
+    per = rng.choice([12, 15, 18])
+    vals, y = [], []
+    for i, lv in enumerate(levels):
+        shares = [(1 + (i * 2) % 5), (1 + (i * 3 + 1) % 5), (1 + (4 - i) % 5)]
+        tot = sum(shares)
+        labs = [c for c, sh in zip('abc', shares) for _ in range(max(1, round(per * sh / tot)))]
+        vals += [lv] * len(labs)
+        y += labs
+    order = list(range(len(vals)))
+    rng.shuffle(order)
+    return {'cls': 'MulticlassCarver',
+            'features': {'o0': {'kind': 'ordinal', 'values': [vals[i] for i in order], 'order': list(levels)}},
+            'y': [y[i] for i in order],
+            'params': {'sort_by': rng.choice(['cramerv', 'tschuprowt']), 'min_freq': [1, 20], 'min_freq_mod': [1, 20], 'max_n_mod': 5,
+                       'dropna': rng.random() < 0.5, 'output_dtype': rng.choice(['float', 'str']), 'copy': True}}
+
+
 def hist_c17(seed, cls=None):
     rng = random.Random(seed)
-    spec = random_object_spec(rng, cls or rng.choice(['BinaryCarver', 'BinaryCarver', 'ContinuousCarver', 'Discretizer',
-                                                      'QualitativeDiscretizer', 'QuantitativeDiscretizer', 'MulticlassCarver']))
+    if cls is None and rng.random() < 0.1:
+        spec = multiclass_ordinal_spec(rng)
+    else:
+        spec = random_object_spec(rng, cls or rng.choice(['BinaryCarver', 'BinaryCarver', 'ContinuousCarver', 'Discretizer',
+                                                          'QualitativeDiscretizer', 'QuantitativeDiscretizer', 'MulticlassCarver']))
     o, X, y, kw = E.build(spec)
     h = _new('c17', seed, spec)
     if not h.fit(1, o, X, y, kw):
@@ -731,6 +758,38 @@ def flat_then_zigzag_multiclass_spec(rng):
             'params': {'sort_by': rng.choice(['cramerv', 'tschuprowt']), 'min_freq': [1, 20], 'min_freq_mod': [1, 10], 'max_n_mod': rng.choice([3, 4]),
                        'dropna': True, 'output_dtype': 'float', 'copy': True}}
     return spec
+
+
+def missing_like_zero_spec(rng):
+    """A carver sample (dropna=True) in which the rows with a missing value behave like the rows of
+    the lowest bucket of a quantitative feature, the only quantile of that bucket being 0.0 (a
+    spike at zero: amounts, counts), so that the missing values are merged with that bucket alone."""
+    cls = rng.choice(['BinaryCarver', 'BinaryCarver', 'ContinuousCarver', 'MulticlassCarver'])
+    nlev = rng.choice([3, 4])
+    per = rng.choice([12, 16, 20])
+    vals, lvs = [], []
+    for i in range(nlev):
+        vals += [float(i) * rng.choice([1.0, 2.5])] * per if i else [0.0] * per
+        lvs += [i] * per
+    nn = rng.choice([6, 8, 10])
+    vals += [None] * nn
+    lvs += [0] * nn
+    hi = rng.random() < 0.5
+    rate = [0.85 if hi else 0.1] + [(0.1 if hi else 0.45) + 0.15 * (i % 2) for i in range(1, nlev)]
+    if cls == 'BinaryCarver':
+        y = [1 if rng.random() < rate[l] else 0 for l in lvs]
+        y[:2] = [0, 1]
+    elif cls == 'MulticlassCarver':
+        y = [('b' if rng.random() < rate[l] else rng.choice(['a', 'c'])) for l in lvs]
+        y[:3] = ['a', 'b', 'c']
+    else:
+        y = [round(10 * rate[l]) + rng.choice([0, 1]) for l in lvs]
+    order = list(range(len(vals)))
+    rng.shuffle(order)
+    return {'cls': cls, 'features': {'q0': {'kind': 'quanti', 'values': [vals[i] for i in order]}}, 'y': [y[i] for i in order],
+            'params': {'sort_by': ('kruskal' if cls == 'ContinuousCarver' else rng.choice(['cramerv', 'tschuprowt'])),
+                       'min_freq': [1, 10], 'min_freq_mod': None, 'max_n_mod': rng.choice([3, 4, 5]), 'dropna': True,
+                       'output_dtype': rng.choice(['float', 'str']), 'copy': True}}
 
 
 def hist_c03(seed, cls=None):
